@@ -50,6 +50,10 @@ PLAIN.append(G("p29", "abc", [("Px", True), "Fx"], [("Px", "a b"), ("Fx", "Px c"
 # more rules than terminals, lookahead states encoded right after shift-only states (exercises the scratch counters of Optimize/defaultReduce)
 PLAIN.append(G("p30", "abc", ["Ix"], [("Ix", "a b Lx a"), ("Ix", "Nx"), ("Ix", "c"), ("Lx", "b Lx"), ("Lx", ""), ("Nx", "a c c"), ("Nx", "a c")]))
 PLAIN.append(G("p31", "abc", ["Ix"], [("Ix", "a b Lx a"), ("Ix", "Nx"), ("Lx", "b Lx"), ("Lx", ""), ("Nx", "a c c"), ("Nx", "a c"), ("Nx", "a a Lx c"), ("Ix", "c Nx"), ("Ix", "c c")]))
+# input nonterminals that are left-recursive through another nonterminal: goto(entry, S) also holds completed items
+PLAIN.append(G("p32", "ab", ["Sx"], [("Sx", "a"), ("Sx", "Xu b"), ("Xu", "Sx")]))
+PLAIN.append(G("p33", "ab", ["Sx"], [("Sx", "a"), ("Sx", "Sx Yn b"), ("Yn", "")]))
+PLAIN.append(G("p34", "abc", ["Sx"], [("Sx", "Ax"), ("Sx", "Ax a"), ("Sx", "Ax b"), ("Sx", "Bx b b"), ("Ax", "a"), ("Bx", "a")]))   # a lookahead set containing every terminal
 
 # ---- precedence / associativity (C04, also used by C05 for explicit nonassoc errors) ----
 PREC = [
